@@ -190,8 +190,9 @@ class MinFlowDecomp(pathmodel.AbstractPathModelDAG): # Note that we inherit from
         self.subpath_constraints_coverage = subpath_constraints_coverage
         self.subpath_constraints_coverage_length = subpath_constraints_coverage_length
         self.length_attr = length_attr
-        self.optimization_options = optimization_options
-        self.solver_options = solver_options
+        self.optimization_options = optimization_options if optimization_options is not None else {}
+        # None stands for the default (no option given), as in the k-models
+        self.solver_options = solver_options if solver_options is not None else {}
         self.time_limit = self.solver_options.get("time_limit", sw.SolverWrapper.time_limit)
         self.solve_time_start = None
 
